@@ -4,13 +4,17 @@
   C05.F  a failed allocation refunds what it charged.
   C05.G  OutOfMemory is reported only after a collection was attempted, and the next-collection threshold is computed
          from the post-collection usage.
-  C05.O  the object cell allocated by every RuntimeData::init_* is handed to object_list or released on every exit.
-  C05.L  layout symmetry: every dealloc site builds its Layout the same way as an alloc site (and vice versa).
+  C05.O  every pointer a runtime method obtains from the accounting allocator (directly or from a helper that returns one) is
+         released, handed to an owner (object_list; a value whose Drop releases it) or returned on every exit.
+  C05.L  layout symmetry: every dealloc site builds its Layout the same way as an alloc site (and vice versa); an owner whose
+         Drop computes the released layout from one of its fields (len / capacity) gets that field set to the very value its
+         buffer was allocated for, wherever it is built or the field is overwritten.
   C05.R  a reallocating table frees its old storage with the layout of the OLD capacity: in both adjust_capacity functions the
          capacity that enters the Layout handed to dealloc derives from the value taken out of `self.capacity`, not from
          the new capacity (the system allocator ignores the size, the accounting allocator refunds it).
   C05.C  whoever removes an object from object_list frees it; clear drains the list.
 """
+import re
 from cao.facts import (AnchorMissing, callee_names, short, op_local, op_place, DefUse, hir_walk, hir_callee, hir_strip,
                        hir_local_id)
 from cao.rules import Rule, ok, bad, undecided, note, shared
@@ -22,9 +26,12 @@ EXPLANATION = (
     "facts are shape: (A) the HIR expression charged by CaoLangAllocator::alloc equals the one refunded by dealloc; (F) "
     "on the MIR of alloc every path from the fetch_add to an Err return passes a fetch_sub of the same field; (G) every "
     "path to Err(OutOfMemory) passes a call of RuntimeData::gc, and the value stored to next_gc is computed from a load "
-    "of `allocated` that the gc call dominates; (O) in every init_* the pointer returned by the first allocation reaches "
-    "object_list.push or dealloc on every exit other than that allocation's own failure; (L) alloc/dealloc Layout "
-    "constructors agree pairwise by resolved callee, generic arguments and operand shape; (C) removal from object_list "
+    "of `allocated` that the gc call dominates; (O) in every method of the runtime every pointer obtained from the allocator (a call of alloc, or of a "
+    "helper summarised as returning one) reaches object_list.push, dealloc, a helper summarised as doing that, or an "
+    "aggregate of a type whose Drop releases that field, on every exit other than that allocation's own failure; (L) "
+    "alloc/dealloc Layout constructors agree pairwise by resolved callee, generic arguments and operand shape, and the "
+    "element count of an allocation is data-flow identical to the value stored in the field the owner's Drop sizes the "
+    "release with; private helpers of the allocator are inlined before (A)(F)(G)(Q) are decided; (C) removal from object_list "
     "is always paired with free_object. Not decided: `accounted <= L` as an inequality over histories, and "
     "'live = reachable' after a collection (C02 decides the static part of that)."
 )
@@ -35,6 +42,213 @@ ASSUMPTIONS = [
 
 ALLOC = "alloc::caolang_alloc::CaoLangAllocator::alloc"
 DEALLOC = "alloc::caolang_alloc::CaoLangAllocator::dealloc"
+GC = "vm::runtime::RuntimeData::gc"
+FREE_OBJECT = "vm::runtime::RuntimeData::free_object"
+
+
+# ---------------------------------------------------------------------------------------------------
+# following calls into private helpers: MIR inlining
+# ---------------------------------------------------------------------------------------------------
+
+def local_callee(F, t):
+    """the crate-local, non-closure function with a MIR body that a call terminator resolves to (or None)"""
+    func = t["func"]
+    if "indirect" in func or not (func.get("resolved_local") or func.get("local")):
+        return None
+    for n in reversed(callee_names(func)):
+        for g in F.by_short.get(n, []):
+            if g.mir and not g.is_closure:
+                return g
+    return None
+
+
+def private_helper(F, stop=()):
+    """predicate for `inlined`: calls of private (not `pub`) functions of the crate, the rule's own anchors excepted"""
+    def want(t):
+        g = local_callee(F, t)
+        if g is None or g.raw.get("vis") == "Public" or g.short in stop:
+            return None
+        return g
+    return want
+
+
+def _shift(x, lb):
+    """deep copy of a MIR json value with every local index moved up by lb"""
+    if isinstance(x, list):
+        return [_shift(y, lb) for y in x]
+    if isinstance(x, dict):
+        d = {k: _shift(v, lb) for k, v in x.items()}
+        if isinstance(d.get("l"), int) and ("p" in d or d.get("k") in ("live", "dead")):
+            d["l"] += lb
+        if d.get("k") == "index" and isinstance(d.get("local"), int):
+            d["local"] += lb
+        return d
+    return x
+
+
+def _retarget(t, bb):
+    for k in ("target", "unwind", "otherwise"):
+        if isinstance(t.get(k), int):
+            t[k] += bb
+    if t["k"] == "switch":
+        t["targets"] = [[v, b + bb] for v, b in t["targets"]]
+
+
+def inlined(F, fn, want, max_depth=3):
+    """A copy of `fn` in which every call accepted by want(term) -> callee Fn is replaced by the callee's body (fresh locals,
+    parameters assigned from the arguments, every `return` of the callee assigning the call's destination and continuing at
+    the call's target). Inlining is semantics preserving, so whatever a rule proves about all paths of the result holds for
+    the original; correlations between a helper's result and its internal branch are not kept (more paths, never fewer).
+    Recursive helpers and anything deeper than max_depth stay calls."""
+    if not fn.mir:
+        return fn
+    blocks = _shift(fn.mir["blocks"], 0)
+    locals_ = list(fn.mir["locals"])
+    depth = [0] * len(blocks)
+    chain = [(fn.short,)] * len(blocks)
+    bi = 0
+    did = False
+    while bi < len(blocks):
+        t = blocks[bi]["term"]
+        if t["k"] == "call" and depth[bi] < max_depth:
+            g = want(t)
+            if g is not None and g.short not in chain[bi] and len(t["args"]) == g.mir["arg_count"]:
+                did = True
+                lb, bb = len(locals_), len(blocks)
+                locals_.extend(g.mir["locals"])
+                for gb in g.mir["blocks"]:
+                    nb = _shift(gb, lb)
+                    _retarget(nb["term"], bb)
+                    if nb["term"]["k"] == "return":
+                        nb["stmts"].append({"k": "assign", "place": t["dest"], "ln": t.get("ln"), "exp": False,
+                                            "rv": {"k": "use", "op": {"k": "move", "place": {"l": lb, "p": []}}}})
+                        nb["term"] = {"k": "goto", "target": t["target"]} if t["target"] is not None else {"k": "unreachable"}
+                    blocks.append(nb)
+                    depth.append(depth[bi] + 1)
+                    chain.append(chain[bi] + (g.short,))
+                for i, a in enumerate(t["args"]):
+                    blocks[bi]["stmts"].append({"k": "assign", "place": {"l": lb + 1 + i, "p": []}, "ln": t.get("ln"), "exp": False,
+                                                "rv": {"k": "use", "op": a}})
+                blocks[bi]["term"] = {"k": "goto", "target": bb, "inlined": g.short, "ln": t.get("ln")}
+        bi += 1
+    if not did:
+        return fn
+    raw = dict(fn.raw)
+    raw["mir"] = dict(fn.mir, locals=locals_, blocks=blocks)
+    from cao.facts import Fn
+    return Fn(raw)
+
+
+def allocator_bodies(F):
+    """CaoLangAllocator::alloc / ::dealloc with their private helpers inlined (the collector, the real allocator and the
+    trait forwarders stay calls: they are what the rules look for)"""
+    want = private_helper(F, (ALLOC, DEALLOC, GC, FREE_OBJECT) + FORWARDERS)
+    return inlined(F, F.fn(ALLOC), want), inlined(F, F.fn(DEALLOC), want)
+
+
+# ---------------------------------------------------------------------------------------------------
+# value expressions: data-flow identity of scalars inside one MIR body
+# ---------------------------------------------------------------------------------------------------
+
+PURE = ("core::str::", "std::str::", "core::num::", "std::cmp::Ord::", "std::cmp::max", "std::cmp::min", "std::mem::size_of",
+        "std::mem::align_of", "std::alloc::Layout::size", "std::alloc::Layout::align", "core::slice::<impl [T]>::len", "core::slice::len",
+        "<usize as std::cmp::Ord>::", "<u32 as std::cmp::Ord>::", "<u64 as std::cmp::Ord>::")
+COMMUTATIVE = ("Add", "Mul", "BitAnd", "BitOr", "BitXor", "Eq", "Ne")
+
+
+def _binop(op):
+    for suf in ("WithOverflow", "Unchecked"):
+        if op.endswith(suf):
+            op = op[:-len(suf)]
+    return op
+
+
+def vexpr(f, du, op, depth=0):
+    """Normal form of the value an operand holds: equal normal forms => equal values (copies, checked-arithmetic tuples and
+    reborrows are looked through; two calls are the same value only if the callee is a pure function of immutable data and
+    the arguments are the same values; any other call result is identified by its call site). ('unknown', ..) when the
+    local has several definitions."""
+    if op.get("k") == "const":
+        return ("const", op.get("val", op.get("text")))
+    p = op_place(op)
+    if p is None:
+        return ("unknown", "operand")
+    return vplace(f, du, p, depth)
+
+
+def vplace(f, du, p, depth=0):
+    base = vlocal(f, du, p["l"], depth)
+    proj = p["p"]
+    if not proj:
+        return base
+    if len(proj) == 1 and proj[0]["k"] == "field" and proj[0].get("name") == "0" and base[0] in ("Add", "Sub", "Mul"):
+        return base
+    elems = tuple((e["k"], e.get("name") or e.get("variant") or "") for e in proj)
+    if base[0] == "ref" and elems[0][0] == "deref":
+        inner, rest = base[1], elems[1:]
+        if not rest:
+            return inner
+        if inner[0] == "place":
+            return ("place", inner[1], inner[2] + rest)
+        return ("place", inner, rest)
+    return ("place", base, elems)
+
+
+def vlocal(f, du, l, depth=0):
+    if depth > 25:
+        return ("unknown", l)
+    defs = du.defs.get(l, [])
+    if not defs:
+        return ("param", l) if 1 <= l <= f.mir["arg_count"] else ("unknown", l)
+    if len(defs) != 1 or defs[0][3].get("place", defs[0][3].get("dest"))["p"]:
+        return ("unknown", l)
+    bi, si, kind, payload = defs[0]
+    if kind == "call":
+        names = callee_names(payload["func"])
+        if any(n.startswith(PURE) for n in names):
+            v = ("call", names[-1], tuple(payload["func"].get("resolved_args", payload["func"].get("args", [])))) + \
+                tuple(vexpr(f, du, a, depth + 1) for a in payload["args"])
+            # the length of a str is the length of its bytes: s.as_bytes().len() == s.len()
+            if v[1] == "core::slice::len" and len(v) == 4 and v[3][0] == "ref" and v[3][1][0] == "place" and v[3][1][2] == (("deref", ""),):
+                inner = v[3][1][1]
+                if inner[0] == "call" and inner[1] == "core::str::as_bytes" and len(inner) == 4:
+                    return ("call", "core::str::len", ()) + (inner[3],)
+            return v
+        return ("site", bi, names[-1] if names else "?")
+    rv = payload["rv"]
+    k = rv["k"]
+    if k == "use":
+        return vexpr(f, du, rv["op"], depth + 1)
+    if k == "cast":
+        return ("cast", rv.get("ty", ""), vexpr(f, du, rv["op"], depth + 1))
+    if k in ("ref", "rawptr"):
+        return ("ref", vplace(f, du, rv["place"], depth + 1))
+    if k == "bin":
+        op = _binop(rv["op"])
+        a, b = vexpr(f, du, rv["l"], depth + 1), vexpr(f, du, rv["r"], depth + 1)
+        if op in COMMUTATIVE and repr(b) < repr(a):
+            a, b = b, a
+        return (op, a, b)
+    if k == "un":
+        return ("un", rv["op"], vexpr(f, du, rv["x"], depth + 1))
+    return ("unknown", l)
+
+
+def v_known(v):
+    if not isinstance(v, tuple):
+        return True
+    if v and v[0] == "unknown":
+        return False
+    return all(v_known(x) for x in v)
+
+
+def v_subst(v, fn):
+    """replace the ('param', i) leaves of a value expression"""
+    if not isinstance(v, tuple):
+        return v
+    if len(v) == 2 and v[0] == "param":
+        return fn(v[1])
+    return tuple(v_subst(x, fn) for x in v)
 
 
 def norm_hir(e, params):
@@ -100,6 +314,16 @@ def rule_a(F):
         return None, None
     ca, la = charged(fa, "fetch_add")
     cd, ld = charged(fd, "fetch_sub")
+    fam, fdm = allocator_bodies(F)
+    adds = atomic_calls(fam, ("fetch_add",), "allocated")
+    subs = atomic_calls(fdm, ("fetch_sub",), "allocated")
+    if ca is not None and cd is not None and ca != cd and len(adds) == 1 and len(subs) == 1:
+        # written differently (one side through a helper or a `let`): compare the values on the bodies with the private
+        # helpers inlined, parameters identified by their type
+        va = v_subst(vexpr(fam, DefUse(fam), adds[0][1]["args"][1]), lambda i: ("param", fam.local_ty(i)))
+        vd = v_subst(vexpr(fdm, DefUse(fdm), subs[0][1]["args"][1]), lambda i: ("param", fdm.local_ty(i)))
+        if v_known(va) and va == vd:
+            ca = cd = va
     if ca is None or cd is None:
         res.append(bad("C05.A", "C05/A/charge-symmetry", fa.loc(), "alloc must fetch_add and dealloc must fetch_sub the `allocated` counter (add=%s sub=%s)" % (ca is not None, cd is not None)))
     elif ca == cd:
@@ -107,11 +331,9 @@ def rule_a(F):
     else:
         res.append(bad("C05.A", "C05/A/charge-symmetry", fd.loc(ld), "alloc charges %s but dealloc refunds %s: the counter drifts with every object" % (ca, cd)))
     # every successful allocation is charged, every release is refunded (or neither, under the same condition)
-    adds = atomic_calls(fa, ("fetch_add",), "allocated")
-    subs = atomic_calls(fd, ("fetch_sub",), "allocated")
     if adds and subs:
-        cfa, cfd = fa.cfg, fd.cfg
-        ok_blocks = [bi for bi, b in enumerate(fa.blocks) if bi in cfa.reach and any(
+        cfa, cfd = fam.cfg, fdm.cfg
+        ok_blocks = [bi for bi, b in enumerate(fam.blocks) if bi in cfa.reach and any(
             st["k"] == "assign" and st["place"]["l"] == 0 and not st["place"]["p"] and st["rv"]["k"] == "agg"
             and st["rv"]["agg"].get("variant") == "Ok" for st in b["stmts"])]
         if not ok_blocks:
@@ -153,7 +375,7 @@ def rule_a(F):
 
 def rule_f(F):
     res = []
-    fa = F.fn(ALLOC)
+    fa = allocator_bodies(F)[0]
     cfg = fa.cfg
     adds = atomic_calls(fa, ("fetch_add",), "allocated")
     subs = atomic_calls(fa, ("fetch_sub",), "allocated")
@@ -309,36 +531,97 @@ def feasible_path_avoiding(fn, du, target, avoid):
     return False
 
 
+def _comparison_of(fn, du, cond, block):
+    """the comparison statement that computes the bool `cond` tested in `block`: in the block itself, or - through plain
+    copies of single-assignment locals - wherever it was evaluated (`let over = a > b; .. if over`). -> (block, stmt)"""
+    for _ in range(6):
+        st = None
+        for s_ in fn.blocks[block]["stmts"]:
+            if s_["k"] == "assign" and s_["place"]["l"] == cond and not s_["place"]["p"]:
+                st = s_
+        if st is None:
+            d = du.sole_def(cond)
+            if d is None or d[2] != "assign":
+                return None
+            block, st = d[0], d[3]
+        rv = st["rv"]
+        if rv["k"] == "bin" and rv["op"] in ("Gt", "Lt", "Ge", "Le", "Eq", "Ne"):
+            return block, st
+        if rv["k"] == "use" and op_local(rv["op"]) is not None:
+            cond = op_local(rv["op"])
+            continue
+        return None
+    return None
+
+
 def contradictory(fn, du, path):
+    """does the path require one comparison of the same two values to come out both ways? Comparisons are normalised to
+    `a > b` / `a == b` (a <= b is !(a > b), a < b is b > a, a >= b is !(b > a))."""
     facts = {}
+    pos = {b: n for n, b in enumerate(path)}
     for n, b in enumerate(path[:-1]):
         t = fn.blocks[b]["term"]
         if t["k"] != "switch":
             continue
         cond = op_local(t["discr"])
-        st = None
-        for s_ in fn.blocks[b]["stmts"]:
-            if s_["k"] == "assign" and s_["place"]["l"] == cond and s_["rv"]["k"] == "bin" and s_["rv"]["op"] in ("Gt", "Lt", "Ge", "Le", "Eq", "Ne"):
-                st = s_
-        if st is None:
+        found = _comparison_of(fn, du, cond, b) if cond is not None else None
+        if found is None:
+            continue
+        cb, st = found
+        if cb not in pos or pos[cb] > n:
             continue
         nxt = path[n + 1]
         zero = dict((v, bb) for v, bb in t["targets"]).get(0)
         outcome = not (nxt == zero)
         if zero is not None and nxt == zero and t["otherwise"] == zero:
             continue
-        key = (st["rv"]["op"], value_id(fn, du, st["rv"]["l"], b, path), value_id(fn, du, st["rv"]["r"], b, path))
-        if "?" in (key[1][0], key[2][0]):
+        a, c = value_id(fn, du, st["rv"]["l"], cb, path), value_id(fn, du, st["rv"]["r"], cb, path)
+        if "?" in (a[0], c[0]):
             continue
-        if key in facts and facts[key] != outcome:
-            return True
-        facts[key] = outcome
+        op = st["rv"]["op"]
+        if op == "Lt":
+            op, a, c = "Gt", c, a
+        elif op == "Le":
+            op, outcome = "Gt", not outcome
+        elif op == "Ge":
+            op, a, c, outcome = "Gt", c, a, not outcome
+        elif op == "Ne":
+            op, outcome = "Eq", not outcome
+        if op == "Eq" and repr(c) < repr(a):
+            a, c = c, a
+        keys = [(op, a, c)]
+        if op == "Gt" and not outcome:
+            # !(a > min(u, v)) implies !(a > u) and !(a > v);  !(max(u, v) > c) implies !(u > c) and !(v > c)
+            keys += [("Gt", a, m) for m in _minmax_parts(fn, du, c, path, "min")]
+            keys += [("Gt", m, c) for m in _minmax_parts(fn, du, a, path, "max")]
+        for key in keys:
+            if key in facts and facts[key] != outcome:
+                return True
+        for key in keys[1:]:
+            facts.setdefault(key, outcome)
+        facts[keys[0]] = outcome
+    # a later test may be the one that is implied: !(a > u) recorded after !(a > min(u, v)) is handled above; the converse
+    # order (a > u seen first, then !(a > min(u, v))) is caught by the membership test of the derived keys
     return False
+
+
+def _minmax_parts(fn, du, vid, path, which):
+    """value ids of u and v when the value identified by `vid` is min(u, v) / max(u, v) (std::cmp / Ord)"""
+    if vid[0] != "def" or vid[3] != -1:
+        return []
+    for (bi, si, kind, payload) in du.defs.get(vid[1], []):
+        if bi == vid[2] and kind == "call":
+            names = callee_names(payload["func"])
+            if any(n.rsplit("::", 1)[-1] == which and (n.startswith("std::cmp::") or "as std::cmp::Ord>" in n or n.startswith("core::cmp::")) for n in names) \
+                    and len(payload["args"]) == 2:
+                parts = [value_id(fn, du, a, bi, path) for a in payload["args"]]
+                return [p_ for p_ in parts if p_[0] != "?"]
+    return []
 
 
 def rule_g(F):
     res = []
-    fa = F.fn(ALLOC)
+    fa = allocator_bodies(F)[0]
     cfg = fa.cfg
     du = DefUse(fa)
     gc_blocks = [bi for bi, t in mu.calls(fa) if "vm::runtime::RuntimeData::gc" in callee_names(t["func"])]
@@ -390,7 +673,7 @@ def rule_q(F):
     an explicit sum with the request size, or a read of `allocated` taken after the request was charged to it (fetch_add
     dominating the read). A test on the survivors alone admits a request that takes the accounted usage past the limit."""
     res = []
-    fa = F.fn(ALLOC)
+    fa = allocator_bodies(F)[0]
     cfg = fa.cfg
     du = DefUse(fa)
     charges = atomic_calls(fa, ("fetch_add",), "allocated")
@@ -487,56 +770,531 @@ def is_alloc(t):
     return any(n in (ALLOC, "alloc::Allocator::alloc") or n.endswith("as alloc::Allocator>::alloc") for n in callee_names(t["func"]))
 
 
+def _is_dealloc_name(n):
+    return n in (DEALLOC, "alloc::Allocator::dealloc") or n.endswith("as alloc::Allocator>::dealloc")
+
+
 def is_dealloc(t):
-    return any(n in (DEALLOC, "alloc::Allocator::dealloc") or n.endswith("as alloc::Allocator>::dealloc") for n in callee_names(t["func"]))
+    return any(_is_dealloc_name(n) for n in callee_names(t["func"]))
+
+
+# ---------------------------------------------------------------------------------------------------
+# C05.O  who owns a pointer obtained from the accounting allocator
+# ---------------------------------------------------------------------------------------------------
+
+# std adaptors whose result carries the pointer (or the Result/Option around it) that went in
+THROUGH = ("map_err", "branch", "cast", "as_ptr", "as_mut", "as_ref", "unwrap", "expect", "unwrap_unchecked", "ok_or", "ok_or_else",
+           "new", "new_unchecked", "ok", "into", "from", "from_output", "add", "offset", "cast_mut", "cast_const", "inspect_err")
+FAIL_VARIANTS = ("Err", "Break", "None")
+FAIL_DISCR = {"std::result::Result": 1, "std::ops::ControlFlow": 1, "std::option::Option": 0}
+
+
+def _adt_of(ty):
+    return re.sub(r"<.*$", "", ty or "").lstrip("&").replace("mut ", "").strip()
+
+
+def place_reads(place, T):
+    """does reading `place` read (part of) a tainted local - the payload of a failure variant excepted"""
+    return place["l"] in T and not any(e["k"] == "downcast" and e.get("variant") in FAIL_VARIANTS for e in place["p"])
+
+
+def field_origin(f, du, op):
+    """name of the struct field an operand was read from (through copies, casts and pointer adaptors)"""
+    for _ in range(12):
+        p = op_place(op)
+        if p is None:
+            return None
+        names = [e["name"] for e in p["p"] if e["k"] == "field"]
+        if names:
+            return names[-1]
+        d = du.sole_def(p["l"])
+        if d is None:
+            return None
+        if d[2] == "call":
+            if not d[3]["args"] or not any(n.rsplit("::", 1)[-1] in THROUGH for n in callee_names(d[3]["func"])):
+                return None
+            op = d[3]["args"][0]
+            continue
+        rv = d[3]["rv"]
+        if rv["k"] in ("use", "cast"):
+            op = rv["op"]
+        elif rv["k"] in ("ref", "rawptr"):
+            op = {"k": "copy", "place": rv["place"]}
+        else:
+            return None
+    return None
+
+
+def layout_capv(f, du, local, F=None):
+    """value expression of the element count a Layout was built for; None when the layout has no run-time size. A crate
+    function that returns a Layout and takes one value is a layout constructor whatever it is called: the layout is a
+    function of that argument."""
+    seen = set()
+    for _ in range(14):
+        if local is None or local in seen:
+            return ("unknown", "layout")
+        seen.add(local)
+        ds = du.defs.get(local, [])
+        if not ds and 1 <= local <= f.mir["arg_count"]:
+            return ("unknown", "layout parameter")
+        if len(ds) != 1:
+            return ("unknown", "layout")
+        _bi, _si, kind, payload = ds[0]
+        if kind == "call":
+            nm = callee_names(payload["func"])
+            last = nm[0].rsplit("::", 1)[-1]
+            args = payload["args"]
+            if last in ("unwrap", "expect", "branch", "clone", "unwrap_unchecked"):
+                local = op_local(args[0]) if args else None
+                continue
+            if nm[0].endswith("Layout::new"):
+                return None
+            if nm[0].endswith("Layout::array") or any(n.endswith("::layout") for n in nm):
+                return vexpr(f, du, args[0]) if args else None
+            if nm[0].endswith("Layout::from_size_align"):
+                size = vexpr(f, du, args[0])
+                if size[0] == "Mul":
+                    def is_sz(v):
+                        return v[0] == "call" and "size_of" in v[1]
+                    if is_sz(size[1]) != is_sz(size[2]):
+                        return size[2] if is_sz(size[1]) else size[1]
+                if size[0] == "call" and "size_of" in size[1]:
+                    return None
+                return size
+            g = local_callee(F, payload) if F is not None else None
+            if g is not None and "Layout" in (g.raw.get("sig") or {}).get("output", "") and len(args) == 1:
+                return vexpr(f, du, args[0])
+            return ("unknown", "layout")
+        rv = payload["rv"]
+        if rv["k"] in ("use", "cast"):
+            p = op_place(rv["op"])
+            if p is None and const_layout(F, rv["op"]) is not None:
+                return None
+            local = p["l"] if p is not None else None
+            continue
+        return ("unknown", "layout")
+    return ("unknown", "layout")
+
+
+def sig_decided(sig):
+    return bool(sig) and sig[0] not in ("?", "param")
+
+
+class Src:
+    """one pointer obtained from the accounting allocator inside a function: a call of Allocator::alloc, or a call of a
+    helper that returns such a pointer"""
+
+    def __init__(self, f, block, term, allocs, via):
+        self.f, self.block, self.term, self.allocs, self.via = f, block, term, allocs, via
+        self.T = set()
+        self.sinks = {}
+        self.ret_blocks = set()
+        self.leak = False
+        self.leak_ln = None
+        self.escapes = False
+        self.listed = False
+        self.mismatch = None
+
+
+class FnOwn:
+    def __init__(self, f):
+        self.f = f
+        self.sources = []
+        self.returned = []      # [(layout signature, capacity value in terms of the parameters)] of the pointers handed to the caller
+
+
+class Own:
+    """Per-function ownership facts, helpers summarised once: which calls yield a pointer from the accounting allocator,
+    where each pointer is released / handed to an owner / returned, and what a function does with a pointer parameter."""
+
+    def __init__(self, F):
+        self.F = F
+        self.memo = {}
+        self.active = set()
+        self.pmemo = {}
+        self._owners = None
+        self._du = {}
+
+    @staticmethod
+    def of(F):
+        o = getattr(F, "_c05_own", None)
+        if o is None:
+            o = Own(F)
+            F._c05_own = o
+        return o
+
+    def du(self, f):
+        d = self._du.get(id(f))
+        if d is None:
+            d = self._du[id(f)] = DefUse(f)
+        return d
+
+    # ---- types whose Drop gives memory back to the accounting allocator --------------------------------
+    def owners(self):
+        if self._owners is None:
+            out = {}
+            priv = private_helper(self.F, FORWARDERS + (ALLOC, DEALLOC))
+            cg = self.F.callgraph
+
+            def want(t):
+                # follow Drop into private helpers that release memory; layout constructors stay calls (they are the signature)
+                g = priv(t)
+                if g is not None and any(_is_dealloc_name(n) for n in cg.reach(g.short)):
+                    return g
+                return None
+            for d in self.F.trait_impl_fns("std::ops::Drop", "drop"):
+                if not d.mir:
+                    continue
+                adt = _adt_of(d.raw.get("impl_self"))
+                body = inlined(self.F, d, want)
+                du = DefUse(body)
+                for _bi, t in mu.calls(body):
+                    if not is_dealloc(t):
+                        continue
+                    capv = layout_capv_op(self.F, body, du, t["args"][2])
+                    sf = None
+                    if capv and capv[0] == "place" and capv[1] == ("param", 1) and capv[2][-1][0] == "field":
+                        sf = capv[2][-1][1]
+                    out.setdefault(adt, []).append(dict(ptr_field=field_origin(body, du, t["args"][1]), size_field=sf, capv=capv,
+                                                        sig=layout_sig_op(self.F, body, du, t["args"][2]), fn=d, ln=t.get("ln")))
+            self._owners = out
+        return self._owners
+
+    # ---- taint ------------------------------------------------------------------------------------------
+    def taint(self, f, seeds, transparent=False):
+        """locals that hold the seeded pointer, a value derived from it, or something containing it. transparent=True: only
+        through values that ARE the pointer as far as ownership goes - copies, casts, std adaptors, tuples and std wrappers
+        (Ok / Some); a struct of the crate that merely contains the pointer is a handle, not the pointer."""
+        T = set(seeds)
+        changed = True
+        while changed:
+            changed = False
+            for b in f.blocks:
+                for st in b["stmts"]:
+                    if st["k"] != "assign" or st["place"]["l"] in T:
+                        continue
+                    rv = st["rv"]
+                    if rv["k"] in ("use", "cast", "repeat", "agg"):
+                        reads = [op_place(o) for o in (rv["ops"] if rv["k"] == "agg" else [rv["op"]])]
+                    elif rv["k"] in ("ref", "rawptr"):
+                        reads = [rv["place"]]
+                    else:
+                        continue
+                    if transparent and rv["k"] == "agg" and not (rv["agg"]["k"] in ("tuple", "array") or (
+                            rv["agg"]["k"] == "adt" and rv["agg"].get("path", "").startswith(("std::", "core::")))):
+                        continue
+                    if any(p is not None and place_reads(p, T) for p in reads):
+                        T.add(st["place"]["l"])
+                        changed = True
+                t = b["term"]
+                if t["k"] != "call" or t["dest"]["l"] in T:
+                    continue
+                hit = [i for i, a in enumerate(t["args"]) if op_place(a) is not None and place_reads(op_place(a), T)]
+                if not hit:
+                    continue
+                names = callee_names(t["func"])
+                g = local_callee(self.F, t)
+                if g is not None:
+                    carries = any(self.flows_to_return(g, i + 1, transparent) for i in hit) and not is_alloc(t) and not is_dealloc(t)
+                else:
+                    carries = any(n.rsplit("::", 1)[-1] in THROUGH for n in names)
+                if carries:
+                    T.add(t["dest"]["l"])
+                    changed = True
+        return T
+
+    def flows_to_return(self, g, i, transparent=False):
+        key = ("ret", g.short, i, transparent)
+        if key in self.pmemo:
+            return self.pmemo[key]
+        if key in self.active or g.short in FORWARDERS:
+            return False
+        self.active.add(key)
+        try:
+            T = self.taint(g, {i}, transparent)
+            r = 0 in T
+        finally:
+            self.active.discard(key)
+        self.pmemo[key] = r
+        return r
+
+    # ---- where a tainted pointer stops being this function's responsibility -----------------------------
+    def sinks_for(self, f, T):
+        du = self.du(f)
+        sinks = {}
+        owners = self.owners()
+        for bi, b in enumerate(f.blocks):
+            for st in b["stmts"]:
+                if st["k"] != "assign":
+                    continue
+                rv = st["rv"]
+                if rv["k"] == "agg" and rv["agg"]["k"] == "adt" and short(rv["agg"]["path"]) in owners:
+                    fields = rv["agg"].get("fields", [])
+                    for o in owners[short(rv["agg"]["path"])]:
+                        if o["ptr_field"] in fields:
+                            p = op_place(rv["ops"][fields.index(o["ptr_field"])])
+                            if p is not None and place_reads(p, T):
+                                sinks[bi] = ("owner", short(rv["agg"]["path"]), st.get("ln"))
+            t = b["term"]
+            if t["k"] != "call":
+                continue
+            args = t["args"]
+
+            def tainted(i):
+                p = op_place(args[i]) if i < len(args) else None
+                return p is not None and place_reads(p, T)
+            nm = callee_names(t["func"])
+            if is_dealloc(t):
+                if tainted(1):
+                    sinks[bi] = ("dealloc", layout_sig_op(self.F, f, du, args[2]), t.get("ln"))
+                continue
+            if is_alloc(t):
+                continue
+            if any(x.startswith("std::vec::Vec::") and x.endswith("::push") for x in nm):
+                a0 = op_local(args[0])
+                if a0 is not None and mu.ref_of_field_chain(f, du, a0, ["object_list"]) and tainted(1):
+                    sinks[bi] = ("list", None, t.get("ln"))
+                continue
+            g = local_callee(self.F, t)
+            if g is None or g.short in FORWARDERS:
+                continue
+            for i in range(len(args)):
+                if tainted(i):
+                    pf = self.param_flow(g, i + 1)
+                    if pf is not None:
+                        sinks[bi] = (pf[0], pf[1], t.get("ln"))
+                        break
+        return sinks
+
+    def param_flow(self, g, i):
+        """what g does with the pointer it receives as parameter i on EVERY path to its return: ('dealloc', layout) /
+        ('list', None) it ends up in object_list / ('owner', type) / None (not on every path, or nothing)"""
+        key = ("param", g.short, i)
+        if key in self.pmemo:
+            return self.pmemo[key]
+        if key in self.active:
+            return None
+        self.active.add(key)
+        try:
+            r = None
+            if g.short == FREE_OBJECT:
+                r = ("dealloc", ("?",))
+            else:
+                T = self.taint(g, {i})
+                sinks = self.sinks_for(g, T)
+                if sinks:
+                    _seen, rets = _search(g, 0, set(sinks), ())
+                    if not rets:
+                        kinds = set(k for k, _d, _l in sinks.values())
+                        first = sinks[min(sinks)]
+                        if kinds == {"dealloc"}:
+                            sigs = set(d for _k, d, _l in sinks.values())
+                            r = ("dealloc", first[1] if len(sigs) == 1 else ("?",))
+                        elif "list" in kinds:
+                            r = ("list", None)
+                        else:
+                            r = ("owner", first[1])
+        finally:
+            self.active.discard(key)
+        self.pmemo[key] = r
+        return r
+
+    # ---- per function -----------------------------------------------------------------------------------
+    def info(self, f):
+        if f.short in self.memo:
+            return self.memo[f.short]
+        out = FnOwn(f)
+        if f.short in self.active or not f.mir:
+            return out
+        self.active.add(f.short)
+        try:
+            du = self.du(f)
+            cfg = f.cfg
+            for bi, t in mu.calls(f):
+                if bi not in cfg.reach or t["target"] is None or is_dealloc(t):
+                    continue
+                allocs, via = None, None
+                if is_alloc(t):
+                    allocs = [(layout_sig_op(self.F, f, du, t["args"][1]), layout_capv_op(self.F, f, du, t["args"][1]))]
+                else:
+                    g = local_callee(self.F, t)
+                    if g is not None and g.short != f.short and g.short not in FORWARDERS:
+                        gi = self.info(g)
+                        if gi.returned:
+                            argv = [vexpr(f, du, a) for a in t["args"]]
+
+                            def at_call(i, argv=argv):
+                                return argv[i - 1] if 1 <= i <= len(argv) else ("unknown", "parameter")
+                            allocs = [(sig, None if capv is None else v_subst(capv, at_call)) for sig, capv in gi.returned]
+                            via = g
+                if allocs is None:
+                    continue
+                src = Src(f, bi, t, allocs, via)
+                self.decide(src)
+                out.sources.append(src)
+                if src.escapes:
+                    out.returned.extend(src.allocs)
+        finally:
+            self.active.discard(f.short)
+        self.memo[f.short] = out
+        return out
+
+    def fail_edges(self, f, T, src_block):
+        """edges taken only when the allocation itself failed: the Err / None / Break arm of a switch on the discriminant of
+        a value all of whose definitions come from the allocation"""
+        du = self.du(f)
+        out = set()
+        for bi, b in enumerate(f.blocks):
+            t = b["term"]
+            if t["k"] != "switch":
+                continue
+            d = op_local(t["discr"])
+            dd = du.sole_def(d) if d is not None else None
+            if dd is None or dd[2] != "assign" or dd[3]["rv"]["k"] != "discr":
+                continue
+            rv = dd[3]["rv"]
+            x = rv["place"]
+            fail = FAIL_DISCR.get(short(rv.get("adt", "")))
+            if fail is None or x["p"] or x["l"] not in T:
+                continue
+            pure = True
+            for (db, _si, kind, payload) in du.defs.get(x["l"], []):
+                if kind == "call":
+                    if db == src_block:
+                        continue
+                    if not any(op_place(a) is not None and place_reads(op_place(a), T) for a in payload["args"]):
+                        pure = False
+                else:
+                    rr = payload["rv"]
+                    reads = [op_place(o) for o in (rr["ops"] if rr["k"] == "agg" else [rr.get("op")] if rr["k"] in ("use", "cast") else [])]
+                    if payload["place"]["p"] or not any(p is not None and place_reads(p, T) for p in reads):
+                        pure = False
+            if not pure:
+                continue
+            tm = dict((v, bb) for v, bb in t["targets"])
+            tgt = tm.get(fail, t["otherwise"])
+            okt = [bb for v, bb in t["targets"] if v != fail]
+            if tgt not in okt:
+                out.add((bi, tgt))
+        return out
+
+    def decide(self, src):
+        f = src.f
+        src.T = self.taint(f, {src.term["dest"]["l"]})
+        sinks = self.sinks_for(f, src.T)
+        sigs = [s_ for s_, _c in src.allocs if sig_decided(s_)]
+        for b, (kind, detail, ln) in list(sinks.items()):
+            if kind == "dealloc" and sig_decided(detail) and sigs and detail not in sigs:
+                src.mismatch = (detail, ln)
+                del sinks[b]
+        src.sinks = sinks
+        src.listed = any(k == "list" for k, _d, _l in sinks.values())
+        # the pointer itself (in a tuple / Ok / Some at most, not inside a handle struct of the crate) becomes the result
+        TR = self.taint(f, {src.term["dest"]["l"]}, transparent=True)
+        for bi, b in enumerate(f.blocks):
+            for st in b["stmts"]:
+                if st["k"] == "assign" and st["place"]["l"] == 0 and 0 in TR:
+                    rv = st["rv"]
+                    reads = [op_place(o) for o in (rv["ops"] if rv["k"] == "agg" else [rv.get("op")] if rv["k"] in ("use", "cast") else [])]
+                    if any(p is not None and place_reads(p, TR) for p in reads):
+                        src.ret_blocks.add(bi)
+            t = b["term"]
+            if t["k"] == "call" and t["dest"]["l"] == 0 and 0 in TR and \
+                    any(op_place(a) is not None and place_reads(op_place(a), TR) for a in t["args"]):
+                src.ret_blocks.add(bi)
+        forbidden = self.fail_edges(f, src.T, src.block)
+        stops = set(sinks) | src.ret_blocks
+        seen, rets = _search(f, src.term["target"], stops, forbidden)
+        src.escapes = bool(seen & (src.ret_blocks - set(sinks)))
+        if rets:
+            src.leak = True
+            errs = mu.error_exit_blocks(f)
+            lines = sorted(x for x in (_first_ln(f, b) if f.blocks[b]["term"]["k"] != "call" else f.blocks[b]["term"].get("ln")
+                                       for b in seen if b in errs and f.blocks[b]["term"].get("target", 0) is not None) if x)
+            later = [x for x in lines if x > (src.term.get("ln") or 0)]
+            src.leak_ln = (later or lines or [None])[0]
+
+
+def _search(f, start, stops, forbidden):
+    """blocks reachable from start without continuing past a block of `stops` and without taking a forbidden edge;
+    second result: the return blocks reached"""
+    cfg = f.cfg
+    seen, dq, rets = {start}, [start], []
+    while dq:
+        b = dq.pop()
+        if b in stops:
+            continue
+        if f.blocks[b]["term"]["k"] == "return":
+            rets.append(b)
+            continue
+        for s_ in cfg.succ[b]:
+            if (b, s_) in forbidden or s_ in seen:
+                continue
+            seen.add(s_)
+            dq.append(s_)
+    return seen, rets
+
+
+def object_list_types(F):
+    """the type(s) holding `object_list`, the list of everything the VM must eventually free"""
+    out = set()
+    for path, a in F.adts.items():
+        for v in a.get("variants", []):
+            if any(fd.get("name") == "object_list" for fd in v.get("fields", [])):
+                out.add(path)
+    if not out:
+        raise AnchorMissing("a type with an `object_list` field")
+    return out
 
 
 def rule_o(F):
+    """C05.O: every pointer a method of the runtime obtains from the accounting allocator - directly or from a helper that
+    returns one - is, on every exit of that method other than the failure of that very allocation, released (dealloc,
+    directly or in a helper), handed to an owner (pushed on object_list; stored in a value whose Drop releases it), or
+    returned to the caller (then the caller is held to the same)."""
     res = []
-    n = 0
+    own = Own.of(F)
+    rts = object_list_types(F)
+    cells = 0
     for f in F.fns:
-        if not f.mir or f.is_closure or not f.short.startswith("vm::runtime::RuntimeData::init_"):
+        if not f.mir or f.is_closure or f.raw.get("impl_trait") or _adt_of(f.raw.get("impl_self")) not in rts or f.short in FORWARDERS:
             continue
-        n += 1
-        cfg = f.cfg
-        du = DefUse(f)
-        allocs = [(bi, t) for bi, t in mu.calls(f) if is_alloc(t)]
-        if not allocs:
-            res.append(undecided("C05.O", "C05/O/%s" % f.name, f.loc(), "no allocation found"))
+        srcs = [s_ for s_ in own.info(f).sources if s_.leak or not s_.escapes]
+        if any(s_.escapes and not s_.leak for s_ in own.info(f).sources) and not call_sites_of(F, f):
+            # handed to callers outside the crate: nobody inside is responsible for it
+            mk = note if f.short in HOST_ONLY else undecided
+            res.append(mk("C05.O", "C05/O/%s/returned" % f.name, f.loc(), "%s returns memory of the accounting allocator to its caller and has "
+                          "no caller inside the crate: its release cannot be decided here" % f.name))
+        if not srcs:
             continue
-        first = allocs[0]
-        sinks = set()
-        for bi, t in mu.calls(f):
-            nm = callee_names(t["func"])
-            if any(x.startswith("std::vec::Vec::") and x.endswith("::push") for x in nm):
-                a0 = op_local(t["args"][0])
-                if a0 is not None and mu.ref_of_field_chain(f, du, a0, ["object_list"]):
-                    sinks.add(bi)
-            if is_dealloc(t) or "vm::runtime::RuntimeData::free_object" in nm:
-                sinks.add(bi)
-        own_fail = set()
-        for bi, t in mu.calls(f):
-            if any(x.endswith("from_residual") for x in callee_names(t["func"])) and t["dest"]["l"] == 0:
-                a0 = op_local(t["args"][0])
-                if a0 is not None and origin_call_block(f, du, a0) == first[0]:
-                    own_fail.add(bi)
-        rets = set(cfg.return_blocks())
-        start = first[1]["target"]
-        r = cfg.reachable_from(start, avoid=sinks | own_fail)
-        key = "C05/O/%s" % f.name
-        if r & rets:
-            # which exit leaks?
-            leak = None
-            for bi, t in mu.calls(f):
-                if bi in r and any(x.endswith("from_residual") for x in callee_names(t["func"])) and t["dest"]["l"] == 0:
-                    leak = t.get("ln")
-            res.append(bad("C05.O", key, f.loc(leak),
-                           "%s allocates the object cell, then returns early (line %s) when a later step fails without releasing it: the cell "
-                           "stays charged and unreachable, so accounted memory no longer returns to zero when the VM is cleared" % (f.name, leak)))
-        else:
-            res.append(ok("C05.O", key, f.loc(), "the object cell reaches object_list.push or dealloc on every exit", allocs=len(allocs)))
-    if n < 5:
-        raise AnchorMissing("RuntimeData::init_* functions (found %d)" % n)
+        prim = [s_ for s_ in srcs if s_.listed] or srcs[:1]
+        n_p = n_o = 0
+        for s_ in srcs:
+            if s_ in prim:
+                key = "C05/O/%s%s" % (f.name, "" if n_p == 0 else "#%d" % n_p)
+                n_p += 1
+                what = "the object cell"
+                cells += 1
+            else:
+                key = "C05/O/%s/payload%s" % (f.name, "" if n_o == 0 else "#%d" % n_o)
+                n_o += 1
+                what = "a buffer"
+            ln = s_.term.get("ln")
+            if s_.leak:
+                extra = ""
+                if s_.mismatch:
+                    extra = " (the release at line %s uses another layout, %s, than the allocation)" % (s_.mismatch[1], s_.mismatch[0],)
+                how = ("then returns early (line %s) when a later step fails" % s_.leak_ln) if s_.leak_ln else "and can return"
+                res.append(bad("C05.O", key, f.loc(s_.leak_ln or ln),
+                               "%s allocates %s (line %s), %s without releasing it or handing it to an owner%s: the memory stays charged "
+                               "and is owned by nothing (neither a collection nor clear() frees it), so accounted memory no longer "
+                               "returns to zero when the VM is cleared" % (f.name, what, ln, how, extra)))
+            else:
+                kinds = sorted(set(k for k, _d, _l in s_.sinks.values()))
+                res.append(ok("C05.O", key, f.loc(ln), "%s reaches object_list.push, an owner that releases it, or dealloc on every exit" % what,
+                              sinks=kinds, via=s_.via.short if s_.via else None))
+    if cells < 5:
+        raise AnchorMissing("runtime methods that allocate an object cell (found %d)" % cells)
     return res
 
 
@@ -544,7 +1302,37 @@ def rule_o(F):
 # C05.L
 # ---------------------------------------------------------------------------------------------------
 
-def layout_sig(f, du, local, depth=0):
+def const_layout(F, op):
+    """A `const X: Layout = Layout::new::<T>()` is that constructor call wherever it is used; any other Layout constant is
+    identified by its path (the same constant is the same layout)."""
+    if F is None or op is None or op.get("k") != "const" or not op.get("text"):
+        return None
+    for g in F.by_short.get(short(op["text"]), []):
+        if g.hir and str(g.kind).startswith("Const"):
+            e = hir_strip(g.hir.get("body"))
+            if e is not None and e.get("k") == "call" and not e["args"] and any(n.endswith("Layout::new") for n in hir_callee(e)):
+                cal = e["f"]["path"].get("callee", {}) if e["f"].get("k") == "path" else {}
+                return ("Layout::new", tuple(cal.get("resolved_args", cal.get("args", e["f"].get("path", {}).get("args", [])))))
+            return ("const", g.short)
+    return None
+
+
+def layout_sig_op(F, f, du, op):
+    """signature of the Layout an operand denotes (a local, or a constant)"""
+    c = const_layout(F, op)
+    if c is not None:
+        return c
+    l = op_local(op)
+    return layout_sig(f, du, l, F=F) if l is not None else ("?",)
+
+
+def layout_capv_op(F, f, du, op):
+    if const_layout(F, op) is not None:
+        return None
+    return layout_capv(f, du, op_local(op), F)
+
+
+def layout_sig(f, du, local, depth=0, F=None):
     """Signature of how a Layout operand was built."""
     seen = set()
     while depth < 12:
@@ -580,7 +1368,7 @@ def layout_sig(f, du, local, depth=0):
         if rv["k"] in ("use", "cast"):
             p = op_place(rv["op"])
             if p is None:
-                return ("?",)
+                return const_layout(F, rv["op"]) or ("?",)
             local = p["l"]   # tuple field .0 of `Self::layout(cap)` is transparent
             continue
         return ("?",)
@@ -644,13 +1432,17 @@ def rule_l(F):
             if du is None:
                 du = DefUse(f)
             lay = t["args"][1] if is_a else t["args"][2]
-            l = op_local(lay)
-            sig = layout_sig(f, du, l) if l is not None else ("?",)
+            sig = layout_sig_op(F, f, du, lay)
             (allocs if is_a else deallocs).append((f, t, sig))
     asigs = set(s for _f, _t, s in allocs)
     dsigs = set(s for _f, _t, s in deallocs)
-    if len(allocs) < 8 or len(deallocs) < 6:
-        raise AnchorMissing("allocation sites (found %d alloc, %d dealloc)" % (len(allocs), len(deallocs)))
+    # a site inside a helper that hands the pointer to its caller (or releases its caller's pointer) stands for one site
+    # per call of the helper
+    own = Own.of(F)
+    n_alloc = sum(site_multiplicity(F, own, f, t, True) for f, t, _s in allocs)
+    n_dealloc = sum(site_multiplicity(F, own, f, t, False) for f, t, _s in deallocs)
+    if n_alloc < 8 or n_dealloc < 6:
+        raise AnchorMissing("allocation sites (found %d alloc, %d dealloc)" % (n_alloc, n_dealloc))
     counters = {}
     for f, t, sig in deallocs:
         name = (f.root or f.short).split("::")[-2] + "::" + (f.root or f.short).rsplit("::", 1)[-1] if "::" in (f.root or f.short) else f.short
@@ -679,6 +1471,176 @@ def rule_l(F):
                             "host's to manage; not reachable from any instruction or library function" % HOST_ONLY[f.root or f.short]))
         else:
             res.append(bad("C05.L", key, f.loc(t.get("ln")), "allocation with layout %s has no release site with the same layout" % (sig,)))
+    res.extend(size_field_results(F, own))
+    return res
+
+
+def _fn_label(f):
+    n = f.root or f.short
+    return n.split("::")[-2] + "::" + n.rsplit("::", 1)[-1] if "::" in n else n
+
+
+def call_sites_of(F, g):
+    out = []
+    for caller, sites in F.callgraph.sites.items():
+        if caller == g.short:
+            continue
+        for bi, names, t in sites:
+            if g.short in names:
+                out.append((caller, bi, t))
+    return out
+
+
+def site_multiplicity(F, own, f, t, is_a, depth=0):
+    """how many allocation (release) sites the call `t` in `f` stands for: one, or - when f is a helper whose pointer is
+    returned to (received from) its callers - one per call of the helper"""
+    if depth > 3 or f.is_closure:
+        return 1
+    helper = False
+    if is_a:
+        helper = any(s_.term is t and s_.escapes and not s_.leak for s_ in own.info(f).sources)
+    else:
+        p = op_local(t["args"][1])
+        kind, payload = own.du(f).trace_back(p) if p is not None else (None, None)
+        if kind == "arg" and own.param_flow(f, payload) is not None:
+            helper = True
+    if not helper:
+        return 1
+    n = 0
+    for caller, _bi, ct in call_sites_of(F, f):
+        cf = F.fn(caller, required=False)
+        n += site_multiplicity(F, own, cf, ct, is_a, depth + 1) if (cf is not None and cf.mir and is_a and
+                                                                     any(s_.term is ct and s_.escapes for s_ in own.info(cf).sources)) else 1
+    return max(n, 1)
+
+
+def _v_str(v):
+    """readable form of a value expression"""
+    if not isinstance(v, tuple) or not v:
+        return str(v)
+    k = v[0]
+    if k == "param":
+        return "arg%s" % v[1]
+    if k == "const":
+        return str(v[1])
+    if k == "call":
+        return "%s(%s)" % (v[1].rsplit("::", 1)[-1], ", ".join(_v_str(x) for x in v[3:]))
+    if k == "site":
+        return "%s(..)" % str(v[2]).rsplit("::", 1)[-1]
+    if k == "ref":
+        return "&" + _v_str(v[1])
+    if k == "place":
+        s_ = _v_str(v[1])
+        for e in v[2]:
+            s_ = "*" + s_ if e[0] == "deref" else s_ + "." + str(e[1])
+        return s_
+    if k == "cast":
+        return _v_str(v[2])
+    if k == "unknown":
+        return "?"
+    return "%s(%s)" % (k, ", ".join(_v_str(x) for x in v[1:]))
+
+
+def size_field_results(F, own):
+    """Layout symmetry for owners that release their buffer with a layout computed from one of their own fields
+    (`Self::layout(self.len)`, `.. self.capacity * size_of::<T>() ..`): wherever such an object is constructed, or that
+    field is overwritten, the buffer that goes with it was allocated for exactly the value stored in the field - the same
+    local / the same pure function of the same arguments, not merely something of the same type. Otherwise the accounting
+    allocator is charged for one size and refunded another for every object on which the two values differ."""
+    res = []
+    owners = dict((adt, [o for o in lst if o["size_field"]]) for adt, lst in own.owners().items())
+    owners = dict((a, l) for a, l in owners.items() if l)
+    if len(owners) < 3:
+        raise AnchorMissing("owner types whose Drop releases a buffer with a layout computed from one of their fields (found %d: %s)"
+                            % (len(owners), sorted(owners)))
+    counters = {}
+
+    def emit(f, adt, o, ln, srcs, v, what):
+        tname = adt.rsplit("::", 1)[-1]
+        base = "C05/L/size-field/%s.%s/%s" % (tname, o["size_field"], _fn_label(f))
+        n = counters.get(base, 0)
+        counters[base] = n + 1
+        key = base + ("" if n == 0 else "#%d" % n)
+        if not srcs:
+            res.append(undecided("C05.L", key, f.loc(ln), "%s: the buffer that goes with the new `%s` is not allocated in this function" % (what, o["size_field"])))
+            return
+        cands = [(sig, capv) for s_ in srcs for sig, capv in s_.allocs]
+        match = [(sig, capv) for sig, capv in cands if sig == o["sig"]]
+        if not match:
+            if all(sig_decided(sig) for sig, _c in cands) and sig_decided(o["sig"]):
+                res.append(bad("C05.L", key, f.loc(ln), "%s: the buffer `%s` is allocated with layout %s but %s::drop releases it with %s" %
+                               (what, o["ptr_field"], sorted(set(str(c[0]) for c in cands)), tname, o["sig"])))
+            else:
+                res.append(undecided("C05.L", key, f.loc(ln), "%s: layout construction of the buffer not recognised" % what))
+            return
+        for sig, capv in match:
+            if capv is None or not v_known(capv) or not v_known(v):
+                res.append(undecided("C05.L", key, f.loc(ln), "%s: cannot compare the allocated size (%s) with the value stored in `%s` (%s)" %
+                                     (what, _v_str(capv), o["size_field"], _v_str(v))))
+                return
+            if capv != v:
+                res.append(bad("C05.L", key, f.loc(ln),
+                               "%s: the buffer `%s` is allocated with a layout for %s elements, but `%s` - from which %s::drop computes the "
+                               "layout it releases (and the allocator refunds) - is set to %s: for every object on which the two differ the "
+                               "accounted usage is charged one size and refunded another, so it drifts (underflows) as such objects are freed" %
+                               (what, o["ptr_field"], _v_str(capv), o["size_field"], tname, _v_str(v))))
+                return
+        res.append(ok("C05.L", key, f.loc(ln), "%s: `%s` holds the very value the buffer `%s` was allocated for (%s)" %
+                      (what, o["size_field"], o["ptr_field"], _v_str(v))))
+
+    for f in F.fns:
+        if not f.mir or f.short in FORWARDERS:
+            continue
+        du = None
+        for bi, b in enumerate(f.blocks):
+            if bi not in f.cfg.reach:
+                continue
+            for st in b["stmts"]:
+                if st["k"] != "assign":
+                    continue
+                rv = st["rv"]
+                # construction
+                if rv["k"] == "agg" and rv["agg"]["k"] == "adt" and short(rv["agg"]["path"]) in owners:
+                    adt = short(rv["agg"]["path"])
+                    fields = rv["agg"].get("fields", [])
+                    du = du or own.du(f)
+                    for o in owners[adt]:
+                        if o["ptr_field"] not in fields or o["size_field"] not in fields:
+                            continue
+                        p = op_place(rv["ops"][fields.index(o["ptr_field"])])
+                        srcs = [s_ for s_ in own.info(f).sources if p is not None and place_reads(p, s_.T)]
+                        v = vexpr(f, du, rv["ops"][fields.index(o["size_field"])])
+                        emit(f, adt, o, st.get("ln"), srcs, v, "%s builds a %s" % (_fn_label(f), adt.rsplit("::", 1)[-1]))
+                    continue
+                # the size field is overwritten
+                pe = st["place"]["p"]
+                if pe and pe[-1]["k"] == "field" and pe[-1].get("owner") in owners:
+                    adt = pe[-1]["owner"]
+                    if any(d["fn"] is f for d in owners[adt]):
+                        continue
+                    du = du or own.du(f)
+                    for o in owners[adt]:
+                        if o["size_field"] != pe[-1]["name"]:
+                            continue
+                        v = vexpr(f, du, rv["op"]) if rv["k"] == "use" else ("unknown", "computed in place")
+                        srcs = [s_ for s_ in own.info(f).sources if any(sig == o["sig"] for sig, _c in s_.allocs)]
+                        emit(f, adt, o, st.get("ln"), srcs, v, "%s overwrites %s.%s" % (_fn_label(f), adt.rsplit("::", 1)[-1], o["size_field"]))
+            t = b["term"]
+            if t["k"] == "call" and t["args"] and any(n in ("std::mem::replace", "std::mem::swap", "std::mem::take") for n in callee_names(t["func"])):
+                du = du or own.du(f)
+                for ai, a in enumerate(t["args"][:2]):
+                    l = op_local(a)
+                    kind, payload = du.trace_back(l) if l is not None else (None, None)
+                    if kind != "place" or not payload["p"] or payload["p"][-1]["k"] != "field" or payload["p"][-1].get("owner") not in owners:
+                        continue
+                    adt = payload["p"][-1]["owner"]
+                    for o in owners[adt]:
+                        if o["size_field"] != payload["p"][-1]["name"]:
+                            continue
+                        replace = any(n == "std::mem::replace" for n in callee_names(t["func"]))
+                        v = vexpr(f, du, t["args"][1]) if (replace and ai == 0) else ("unknown", "swapped")
+                        srcs = [s_ for s_ in own.info(f).sources if any(sig == o["sig"] for sig, _c in s_.allocs)]
+                        emit(f, adt, o, t.get("ln"), srcs, v, "%s overwrites %s.%s" % (_fn_label(f), adt.rsplit("::", 1)[-1], o["size_field"]))
     return res
 
 
@@ -794,14 +1756,35 @@ def rule_c(F):
                            "%s frees an object that stays registered in object_list: the next collection or clear() frees it a second time "
                            "(and refunds it twice)" % owner.short))
     clear = F.fn("vm::runtime::RuntimeData::clear")
-    called = set()
-    for _bi, names, _t in F.callgraph.sites.get(clear.short, []):
-        called.update(names)
-    if "vm::runtime::RuntimeData::clear_objects" in called:
-        res.append(ok("C05.C", "C05/C/clear/frees-objects", clear.loc(), "RuntimeData::clear calls clear_objects"))
+    if drains_object_list(F, clear):
+        res.append(ok("C05.C", "C05/C/clear/frees-objects", clear.loc(), "RuntimeData::clear takes every object out of object_list and frees it"))
     else:
         res.append(bad("C05.C", "C05/C/clear/frees-objects", clear.loc(), "RuntimeData::clear no longer frees the objects"))
     return res
+
+
+LIST_REMOVERS = ("swap_remove", "remove", "pop", "drain", "clear", "truncate", "take", "replace", "retain")
+
+
+def drains_object_list(F, g):
+    """does g - itself or in a private helper - empty object_list as a whole (take / replace / drain) and pass what it took
+    out to free_object"""
+    cached = getattr(g, "_c05_drains", None)
+    if cached is not None:
+        return cached
+    body = inlined(F, g, private_helper(F, (FREE_OBJECT, GC, ALLOC, DEALLOC) + FORWARDERS))
+    du = DefUse(body)
+    whole = frees = False
+    for _bi, t in mu.calls(body):
+        nm = callee_names(t["func"])
+        if FREE_OBJECT in nm:
+            frees = True
+        if any(n.rsplit("::", 1)[-1] in ("take", "replace", "drain") and (n.startswith("std::vec::Vec") or n.startswith("std::mem::")) for n in nm):
+            a0 = op_local(t["args"][0]) if t["args"] else None
+            if a0 is not None and mu.ref_of_field_chain(body, du, a0, ["object_list"]):
+                whole = True
+    g._c05_drains = whole and frees
+    return g._c05_drains
 
 
 def rule_m(F):
@@ -837,7 +1820,7 @@ def rule_m(F):
                                "unlike a new or a cleared VM with limit L, until the next clear()" % f.name))
             # (1) usage fits under the new limit
             key1 = "C05/M/%s/usage-fits-the-new-limit" % f.name
-            clears = [b for b, t2 in mu.calls(f) if any(x.endswith("RuntimeData::clear") or x.endswith("::clear_objects") for x in callee_names(t2["func"]))]
+            clears = [b for b, t2 in mu.calls(f) if local_callee(F, t2) is not None and drains_object_list(F, local_callee(F, t2))]
             if any(cfg.dominates(c, bi) and c != bi for c in clears):
                 res.append(ok("C05.M", key1, f.loc(t.get("ln")), "the VM is cleared on every path to the store of the new limit"))
                 continue
@@ -896,8 +1879,8 @@ RULES = [
     Rule("C05.F", rule_f, 1, "a failed allocation refunds its charge"),
     Rule("C05.G", rule_g, 2, "collect before refusing; threshold from post-collection usage"),
     Rule("C05.Q", rule_q, 1, "the limit test covers survivors plus the pending request"),
-    Rule("C05.O", rule_o, 6, "object cells are owned or released on every exit of init_*"),
-    Rule("C05.L", rule_l, 14, "alloc/dealloc layout symmetry"),
+    Rule("C05.O", rule_o, 7, "every pointer from the accounting allocator is owned, released or returned on every exit of the runtime's methods"),
+    Rule("C05.L", rule_l, 20, "alloc/dealloc layout symmetry; the size field an owner's Drop releases with holds the allocated element count"),
     Rule("C05.R", rule_r, 3, "reallocation frees the old storage with the old capacity's layout"),
     Rule("C05.C", rule_c, 5, "removal from object_list frees; clear drains"),
 ]
